@@ -7,14 +7,18 @@ SPEC = dict(
         category='proof',
         text='Lean theorems over a hand model of tlb/vm_stack.py, for all stacks, all tuple nestings and all ten continuation kinds '
              '(no size bound): c17_schema (every cell VmStack.serialize returns is an encoding of its argument under the block.tlb '
-             'VmStack relation: tinyint iff -2^63 <= v < 2^63, 15-bit 0201_ tag + int257 otherwise, tuple chaining 0/1/2/3+), '
-             'c17_roundtrip (deserialize(serialize(vs)) = vs, by content), c17_pure (the modelled post-state of the caller\'s values '
-             'equals the pre-state; serialising twice gives the same cell). The model is tied to the source by sampled differential '
-             'testing (cell hash, parsed stack, post-state) and the library is checked directly against an independent Python '
-             'transcription of the schema.',
-        level_note='Trusted: Model/VmStack.lean mirrors vm_stack.py by hand (Python lists stored last-first); Spec/Tlb/VmStack.lean says what '
-                   'block.tlb says; the save list (HashmapE 4 VmStackValue) is an opaque dictionary root cell in model and spec (HashMap codec '
-                   'is C09/C10); cell construction/hash are parameters (mk/view) with the law view(mk b r) = (b, r); correspondence is sampled.',
+             'VmStack relation: 24-bit depth, tinyint iff -2^63 <= v < 2^63, 15-bit 0201_ tag + int257 otherwise, tuple chaining 0/1/2/3+, '
+             'all VmCont kinds and VmControlData), c17_pure / c17_twice (in an explicit model of what serialize leaves in the caller\'s '
+             'objects the post-state equals the pre-state, so a second call returns the same cell; the same model with the pre-fix code path '
+             'exhibits F20). c17_roundtrip is proved only for the leaves (c17_roundtrip_partial: intN/uintN fields and VmCellSlice records '
+             'are read back exactly); the round trip of whole stacks (tag dispatch, tuple/stack/continuation recursion of the parser) is NOT '
+             'proved and is checked by sampling: on the library alone (deserialize(serialize(vs)) == vs by content, hash == an independent '
+             'Python transcription of the schema, serialize twice, deep snapshot of the caller\'s values) and against the Lean model (cell hash, '
+             'post-state, parsed stack, parser on damaged input).',
+        level_note='Partial proof. Trusted: Model/VmStack.lean mirrors vm_stack.py by hand (Python lists stored last-first); '
+                   'Spec/Tlb/VmStack.lean says what block.tlb says; the save list (HashmapE 4 VmStackValue) is an opaque dictionary root cell '
+                   'in model and spec (HashMap codec is C09/C10); cell construction is a parameter (mk/view/ord) with the laws view(mk b r) = (b, r), '
+                   'ord(mk b r); the post-state model describes successful calls only; model = code is sampled differential testing.',
         technique='Lean 4 proof (hand model) + differential correspondence with the library'),
     design_ref='DESIGN.md §6 C17',
     rule='stacks of depth 0..50 (thorough 0..2000 and the cell-depth limit 1021..1024) of null / ints at +-2^63, +-(2^63+-1), +-2^256 and random '
